@@ -41,7 +41,7 @@ func (c09Prop) Count(tier string) int {
 	if tier == "thorough" {
 		return 1000000
 	}
-	return 2500
+	return 20000
 }
 
 func (c09Prop) Rule() string {
